@@ -16,9 +16,9 @@ def build(chk, ip, runner):
     chk.design_ref = 'DESIGN.md section 5 C01'
     import os as _os
     # the wire-to-field mapping is a deductive result: KEXINIT parse stores the ten name-lists in wire order (proved in C10's units)
-    chk.units = [u for u in c10_codec.units() if u.contract.qual in ('SSH2_Kex.parse', 'ReadBuf.read_list', 'ReadBuf.read_int', 'ReadBuf.read', 'ReadBuf.read_bool', 'ReadBuf.read_byte', 'ReadBuf.read_mpint1')]
-    chk.units += c01_names.units() + c01_names.parse_units()
-    chk.lemmas = ['val_be_word', 'concat_init', 'val_be_half']
+    chk.units = [u for u in c10_codec.units() if u.contract.qual in ('SSH2_Kex.parse', 'ReadBuf.read_list', 'ReadBuf.read_int', 'ReadBuf.read', 'ReadBuf.read_bool', 'ReadBuf.read_byte')]
+    chk.units += c01_names.units()
+    chk.lemmas = ['val_be_word', 'concat_init']
     chk.stubs = c10_codec.stubs()
     chk.customs = [custom_native]
     chk.level = 'other'
